@@ -70,15 +70,15 @@ def run(ctx, rep):
     tc = prog.own_method("Trade", "complete")
     cfg = ctx.cfg(tc)
     # two orders per trade distinguish "every order" from "some order"
-    table = _truth_table(cfg, ["self.status != TradeStatus.LIVE", "self.pending_orders"], "order.complete", 2)
+    table = _truth_table(cfg, ["self.status == TradeStatus.LIVE", "self.pending_orders"], "order.complete", 2)
     ok2 = True
     detail = []
-    for (not_live, pending, oc), outs in sorted(table.items()):
-        want = {"True"} if (not not_live and not pending and all(oc)) else {"False"}
+    for (live, pending, oc), outs in sorted(table.items()):
+        want = {"True"} if (live and not pending and all(oc)) else {"False"}
         if outs != want:
             ok2 = False
-            detail.append("status!=LIVE=%s pending_orders=%s order.complete=%s -> %s (want %s)" % (
-                not_live, pending, list(oc), sorted(outs), sorted(want)))
+            detail.append("status==LIVE=%s pending_orders=%s order.complete=%s -> %s (want %s)" % (
+                live, pending, list(oc), sorted(outs), sorted(want)))
     lps = walk_nodes(tc.node.body, ast.For)
     ok2 = ok2 and len(lps) == 1 and utext(lps[0].iter) == "self.orders"
     rep.check(ok2, "R2", key(tc, None, "complete <=> LIVE and not pending_orders and every order complete"), tc, None,
